@@ -374,6 +374,7 @@ impl Ctx {
             }
         }
         let mut new_lines: Vec<String> = Vec::new();
+        let mut unreproducible: Vec<String> = Vec::new();
         let mut known_hits: BTreeMap<String, (String, u64, String)> = BTreeMap::new();
         let mut total_new: u64 = 0;
         let mut total_known: u64 = 0;
@@ -409,7 +410,7 @@ impl Ctx {
                 }
                 continue;
             }
-            total_new += b.count;
+            let mut bucket_reported = false;
             for v in &b.first {
                 // determinism gate: the same case must fail the same way twice
                 let r1 = run_case(&v.case);
@@ -434,14 +435,19 @@ impl Ctx {
                         }
                     }
                     if hits < 3 {
-                        println!(
-                            "MACHINERY-ERROR replay of case with sig={} did not reproduce (signature seen in {} of {} replays; first: {:?}; second: {:?}; original: {})",
+                        // not trusted and not reported; it only becomes a machinery error (exit 2)
+                        // when nothing else in this run is a reproducible violation
+                        unreproducible.push(format!(
+                            "replay of case with sig={} did not reproduce (signature seen in {} of {} replays; first: {:?}; second: {:?}; original: {})",
                             v.sig, hits, tries, d1.first(), d2.first(), v.what
-                        );
-                        self.write_evidence(total_new, total_known, &sig_summary);
-                        std::process::exit(2);
+                        ));
+                        continue;
                     }
                     nondet = Some(format!("the subject is not deterministic on this case: the same assertion failed in {} of {} replays with varying detail", hits, tries));
+                }
+                if !bucket_reported {
+                    bucket_reported = true;
+                    total_new += b.count;
                 }
                 n_file += 1;
                 let path = replay_dir.join(format!("{}-{}.json", self.prop, n_file));
@@ -459,6 +465,16 @@ impl Ctx {
                     b.count,
                     truncate(&v.what, 400)
                 ));
+            }
+        }
+        if !unreproducible.is_empty() {
+            if new_lines.is_empty() {
+                println!("MACHINERY-ERROR {}", unreproducible[0]);
+                self.write_evidence(total_new, total_known, &sig_summary);
+                std::process::exit(2);
+            }
+            for u in &unreproducible {
+                println!("NOTE property={} an unreproducible report was dropped: {}", self.prop, truncate(u, 300));
             }
         }
         self.write_evidence(total_new, total_known, &sig_summary);
